@@ -487,7 +487,7 @@ func (x *Explorer) Run() {
 							others = append(others, Trans{Kind: "interleave", Ctrl: a.Ctrl, ID: a.ID, Src: a.Src, Ctrl2: b.Ctrl, ID2: b.ID})
 						}
 					}
-					if reqEnabled && sc.Requests[s.env.NextReq].Call != nil {
+					if reqEnabled {
 						others = append(others, Trans{Kind: "interleave", Ctrl: a.Ctrl, ID: a.ID, Src: a.Src, Fault: sc.Requests[s.env.NextReq].Name})
 					}
 				kLoop:
@@ -725,7 +725,12 @@ func (x *Explorer) interleaved(t Trans) (StepResult, bool) {
 		}
 		for _, r := range x.Sc.Requests {
 			if r.Name == t.Fault {
-				call := r.Call(w)
+				var call *Call
+				if r.Set != nil {
+					call = w.GoSet(context.Background(), r.Set)
+				} else {
+					call = r.Call(w)
+				}
 				if !call.Done {
 					call.Cancel()
 				}
